@@ -54,7 +54,7 @@ def handle (s : St) : List String → St × String
     match (lst reqs).mapM parseReq, bits oks with
     | some rs, some os =>
       let all := assign s.next rs
-      let w := all.map fun (r, h) => toString (wire all r h)
+      let w := all.map fun (_, h) => toString h
       let s' := add s rs os
       (s', s!"wire={join w} {showState s'}")
     | _, _ => (s, "bad-op")
